@@ -11,7 +11,7 @@ import ast
 from typing import Any, Dict, List, Optional, Set, Tuple
 
 from .repo import AnalysisError, FuncInfo, Repo, func_body
-from .terms import (C, Norm, Scope, Term, Typer, conjuncts, key, lin_add, mk_and, mk_not, mk_or, show)
+from .terms import (C, Norm, Scope, Term, Typer, conjuncts, key, lin_add, mk_and, mk_not, mk_or, mk_sub, show)
 
 MUTATORS = {"append", "add", "pop", "clear", "update", "insert", "remove", "extend", "discard", "popitem", "setdefault",
             "difference_update", "intersection_update", "sort", "reverse", "__setitem__", "__delitem__"}
@@ -229,6 +229,7 @@ class Walker:
         self.typer = typer or Typer(repo)
         self.unresolved: List[str] = []
         self.api: Optional[Set[str]] = None
+        self._transp: Dict[str, bool] = {}
         try:
             import json
             import os
@@ -241,7 +242,29 @@ class Walker:
 
     def transparent(self, qualname: str) -> bool:
         """functions that did not exist when the rule tables were written (helpers extracted later) are looked through"""
-        return self.api is not None and qualname not in self.api and qualname in self.repo.functions
+        if self.api is None or qualname in self.api or qualname not in self.repo.functions:
+            return False
+        c = self._transp.get(qualname)
+        if c is None:
+            c = self._transp[qualname] = not self._opaque_helper(self.repo.functions[qualname])
+        return c
+
+    @staticmethod
+    def _opaque_helper(fi: FuncInfo) -> bool:
+        """new helpers that cannot be expanded in place: recursive ones, generators, and those whose result depends on which
+        exception was caught (a `return` inside a try statement). They are analysed like any other function, through their call sites."""
+        node = fi.node
+        for n in ast.walk(node):
+            if isinstance(n, (ast.Yield, ast.YieldFrom)):
+                return True
+            if isinstance(n, ast.Call) and ((isinstance(n.func, ast.Name) and n.func.id == fi.name)
+                                            or (isinstance(n.func, ast.Attribute) and n.func.attr == fi.name)):
+                return True
+            if isinstance(n, ast.Try):
+                for sub in ast.walk(n):
+                    if isinstance(sub, ast.Return):
+                        return True
+        return False
 
     # ------------------------------------------------------------------ public
     def summary(self, qualname: str, depth: Optional[int] = None, heap: bool = False) -> Summary:
@@ -265,6 +288,7 @@ class _Run:
         self.max_depth = depth
         self.norm = Norm(w.repo, w.typer)
         self.norm.on_call = self.on_call
+        self.norm.on_property = self.on_property
         self.norm.on_yield = lambda v, node: self.emit("yield", v, node.lineno)
         self.events: List[Event] = []
         self.unknown: List[str] = []
@@ -375,6 +399,13 @@ class _Run:
                     out.append(m2.qualname)
             return out
         return []
+
+    def on_property(self, base: Term, prop: FuncInfo, node: ast.AST, scope: Scope) -> Optional[Term]:
+        """reading a @property that was introduced after the rule tables were written is a call of a transparent helper"""
+        ctx = self.cur
+        if not self.w.transparent(prop.qualname) or prop.qualname == ctx.fi.qualname or prop.qualname in ctx.inl or len(ctx.inl) >= 6:
+            return None
+        return self.inline_transparent(prop, ("a", base, prop.name), [], [], getattr(node, "lineno", 0))
 
     def on_call(self, term: Term, node: ast.Call, scope: Scope, parts: Tuple[Term, List[Term], List[Tuple[str, Term]]]) -> Optional[Term]:
         f, args, kwargs = parts
@@ -641,7 +672,7 @@ class _Run:
             else:
                 n = len(tgt.elts)
                 for i, el in enumerate(tgt.elts):
-                    self.assign_target(el, ("s", value, C(i)) if n > 1 or True else value, line)
+                    self.assign_target(el, mk_sub(value, C(i)), line)
             return
         if isinstance(tgt, ast.Starred):
             self.assign_target(tgt.value, ("opaque", "starred"), line)
@@ -1124,7 +1155,12 @@ def after_completion(ev: Event, ret: Event) -> bool:
         return False
     if ev.tries == ret.tries and len(ev.pc) == len(ret.pc):
         return True
-    return ev.tries[:-1] == ret.tries and ev.tries[-1] in ret.else_of and len(ev.pc) == len(ret.pc)
+    if ev.tries[:-1] == ret.tries and ev.tries[-1] in ret.else_of and len(ev.pc) == len(ret.pc):
+        return True
+    # after the whole try statement, when no handler completes normally (each returns / raises): only the normal completion of the
+    # try body gets there
+    return ev.tries[:-1] == ret.tries and not ev.tries[-1].handler_falls and not ev.tries[-1].node.finalbody and len(ev.pc) == len(ret.pc) \
+        and ret.line > (ev.tries[-1].node.end_lineno or 0)
 
 
 def exc_class(ev: Event) -> str:
